@@ -260,3 +260,128 @@ LEMMAS['H7'] = dict(jobs=lambda ctx: [dict(what='vm', cls=c) for c in (0, 1, 2, 
     bound='one VM life: create, hash, re-bind, pipelined batch, destroy; one cache life: alloc, init, dataset init, re-key, dataset init, release; at most one failing mprotect per life (every position)', symbolic='flag word (secure JIT subset), keys',
     stubs=['mmap/mprotect/munmap := ghost protection state', 'JitCompilerX86::generate* := recorder of the protection at the time of the call', 'call into generated code := recorder', 'AES/Blake/Argon2 data paths := no-ops'],
     outside='the kernel honouring mprotect; non-Linux branches of virtual_memory.c')
+
+# ---------------------------------------------------------------------------------------------- H3 (C03, C10)
+def _quiet_data_paths(it, mod, events):
+    def gen(name):
+        def h(s, a): events.append((name, a)); return None
+        return h
+    for f in mod.funcs:
+        for g in ('generateSuperscalarHash', 'generateDatasetInitCode', 'generateProgramLight', 'generateProgram'):
+            if 'JitCompilerX86' in f and re.search(r'\d+' + g + 'E', f): it.hooks[f] = gen(g)
+    for nm in ('randomx_argon2_validate_inputs', 'randomx_argon2_initialize', 'randomx_argon2_fill_memory_blocks', '_ZN7randomx15Blake2GeneratorC1EPKvmi', 'randomx_blake2b'):
+        it.hooks[nm] = lambda s, a: 0
+
+def run_H3(ctx, case):
+    """one API call from an arbitrary (possibly stale) binding state re-establishes: VM bound to exactly the given live cache in its current initialisation"""
+    q = Q(30); mod = Module(ctx['ll']['lib']); F = flagvals(); npaths = [0]; kind = case['kind']
+    Lv = None
+    def vm_fields(mod):
+        t = resolve(NamedT('class.randomx_vm', mod)); o = t.layout()[0]
+        tm = resolve(NamedT('struct.randomx::MemoryRegisters', mod)).layout()[0]
+        return dict(cachePtr=o[7], memory=o[5] + tm[2], cacheKey=o[10])
+    tc = resolve(NamedT('struct.randomx_cache', mod)); co = tc.layout()[0]
+    tp = resolve(NamedT('class.randomx::SuperscalarProgram', mod))
+    def one(fk):
+        it = Interp(mod); it.fork = fk; bind_templates(it, ctx)
+        H0 = Heap(it, fail=False); cxxlib.install(it, H0); run_ctors(it, mod)
+        H = Heap(it, fail=False); cxxlib.install(it, H); events = []; _quiet_data_paths(it, mod, events)
+        VF = vm_fields(mod)
+        if kind in ('set_cache', 'create_vm'):
+            la, lb = case['lens']
+            keyC = [z3.BitVec('Ckey%d' % k, 8) for k in range(lb)]; keyV = [z3.BitVec('Vkey%d' % k, 8) for k in range(la)]
+            C = fake_cache(it, mod, 'C', key=keyC); dead = fake_cache(it, mod, 'DeadCache', key=[z3.BitVec('Dkey%d' % k, 8) for k in range(la)])
+            flags = F['JIT'] if case['jit'] else 0
+            boot = fake_cache(it, mod, 'BootCache', key=b'boot')
+            vm = it.call('randomx_create_vm', [flags, boot if kind == 'set_cache' else C, Ptr(None, 0)])
+            if kind == 'create_vm':
+                tag = 'create_vm(%s, C) keylen %d' % ('JIT' if case['jit'] else 'interpreted', lb)
+            else:
+                # arbitrary prior binding: to C itself or to a released cache whose block addresses the allocator may have handed out again
+                events.clear()
+                stale = it.decide(z3.BitVec('bound_to_released_cache', 1)); alias = it.decide(z3.BitVec('released_memory_address_reused', 1)) if stale else 1
+                X = 'DeadCache' if stale else 'C'
+                it.mem.store(Ptr(vm.obj, VF['cachePtr']), Ptr(X, 0), 8)
+                it.mem.store(Ptr(vm.obj, VF['memory']), Ptr('C_memory', 0) if alias else Ptr('DeadCache_memory', 0), 8)
+                cxxlib.make_string(it.mem, vm.obj, VF['cacheKey'], keyV)
+                code_for = X
+                it.call('randomx_vm_set_cache', [vm, C])
+                tag = 'set_cache(%s vm previously bound to %s%s, key lengths %d/%d)' % ('JIT' if case['jit'] else 'interpreted', 'a released cache' if stale else 'the same cache', ' whose memory address was reused' if (stale and alias) else '', la, lb)
+            npaths[0] += 1; pc = fk['pc']
+            cp = it.mem.load(Ptr(vm.obj, VF['cachePtr']), 8); mp = it.mem.load(Ptr(vm.obj, VF['memory']), 8)
+            def chk(c_, msg, site=None):
+                q.n += 1; q.unsat += bool(c_); q.sat += (not c_)
+                if not c_: q.failed.append(('%s: %s' % (tag, msg), dict(site=site)))
+            site = 'randomx_vm_set_cache:stale-cachePtr-after-address-reuse' if kind == 'set_cache' else None
+            chk(isinstance(cp, Ptr) and cp.obj == 'C', 'VM keeps using cache object %s instead of the cache it was given' % (getattr(cp, 'obj', cp),), site)
+            chk(isinstance(mp, Ptr) and mp.obj == 'C_memory' and mp.off == 0, 'VM memory pointer is %s, not the given cache\'s memory' % (mp,), site)
+            # key recorded by the VM == current key of C
+            n_ = it.mem.load(Ptr(vm.obj, VF['cacheKey'] + 8), 8)
+            if is_c(n_) and n_ == lb:
+                dp = it.mem.load(Ptr(vm.obj, VF['cacheKey']), 8)
+                for k in range(lb): q.prove_eq(pc, it.mem.load(Ptr(dp.obj, dp.off + k), 1), keyC[k], '%s: VM key byte %d == cache key' % (tag, k), 8)
+            else:
+                # length differs: only acceptable if ... never (a bound VM records the cache's key)
+                chk(False, 'VM records a key of length %s, cache key has length %d' % (n_, lb))
+            if case['jit']:
+                gens = [e for e in events if e[0].startswith('generateSuperscalarHash')]
+                if kind == 'create_vm' or code_for != 'C' or True:
+                    # code must be (re)generated from C's programs unless the VM was already bound to this very cache with this key
+                    need = kind == 'create_vm' or code_for != 'C'
+                    if need:
+                        ok = bool(gens) and isinstance(gens[-1][1][1], Ptr) and gens[-1][1][1].obj == 'C' and gens[-1][1][1].off == co[5]
+                        chk(ok, 'SuperscalarHash code was not regenerated from the given cache\'s programs', site)
+                    elif not gens:
+                        # skipped: justified only if the recorded key equals the cache key on this path
+                        if la == lb:
+                            q.prove(pc, z3.And([keyV[k] == keyC[k] for k in range(la)]) if la else z3.BoolVal(True), '%s: regeneration skipped only for an identical key' % tag)
+                        else: chk(False, 'regeneration skipped although the key length differs')
+            elif kind == 'set_cache' and not stale:
+                pass
+        else:   # init_cache
+            la, lb = case['lens']; old = [z3.BitVec('old%d' % k, 8) for k in range(la)]; new = [z3.BitVec('new%d' % k, 8) for k in range(lb)]
+            C = fake_cache(it, mod, 'C', key=old)
+            size0 = z3.BitVec('programs0_size', 32); it.mem.store(Ptr('C', co[5] + tp.layout()[0][1]), size0, 4)
+            calls = []
+            it.mem.store(Ptr('C', co[3]), Ptr('@fn:STUB_initialize', 0), 8)
+            def init(s, a): calls.append(a); s.mem.store(Ptr('C', co[5] + tp.layout()[0][1]), 1, 4); return None
+            it.hooks['STUB_initialize'] = init
+            kb = it.mem.alloc(8, 'keybuf')
+            for k in range(lb): it.mem.store(Ptr('keybuf', k), new[k], 1)
+            it.call('randomx_init_cache', [C, kb, lb]); npaths[0] += 1; pc = fk['pc']
+            tag = 'init_cache(old key length %d, new key length %d, %d initialise call)' % (la, lb, len(calls))
+            def chk(c_, msg):
+                q.n += 1; q.unsat += bool(c_); q.sat += (not c_)
+                if not c_: q.failed.append(('%s: %s' % (tag, msg), {}))
+            if calls:
+                a = calls[0]; chk(len(calls) == 1 and a[0].obj == 'C' and a[1].obj == 'keybuf' and a[1].off == 0 and a[2] == lb, 'initialize(cache, key, keySize) arguments')
+            else:
+                # skipped: must imply same key (length and bytes) and an initialised cache
+                if la != lb: chk(False, 're-initialisation skipped although the new key has a different length (the old content stays)')
+                else:
+                    q.prove(pc, z3.And([old[k] == new[k] for k in range(la)] + [size0 != 0]), '%s: skipped only if the key is byte-identical and the cache is initialised' % tag)
+            n_ = it.mem.load(Ptr('C', co[7] + 8), 8); chk(is_c(n_) and n_ == lb, 'cache records key length %s, expected %d' % (n_, lb))
+            if is_c(n_) and n_ == lb:
+                dp = it.mem.load(Ptr('C', co[7]), 8)
+                for k in range(lb): q.prove_eq(pc, it.mem.load(Ptr(dp.obj, dp.off + k), 1), new[k], '%s: recorded key byte %d' % (tag, k), 8)
+        extent_checks(q, fk['pc'], it.mem, tag)
+    res, nq = explore(one, limit=64); q.n += nq
+    r = result('H3', str(case), q, paths=npaths[0], detail='%d paths' % npaths[0])
+    sites = [f[1].get('site') for f in q.failed if isinstance(f[1], dict) and f[1].get('site')]
+    if sites and len(sites) == len(q.failed): r['site'] = sites[0]
+    return r
+
+def jobs_H3(ctx):
+    J = []
+    lens = [(a, b) for a in range(0, 4) for b in range(0, 4)] if ctx['tier'] == 'thorough' else [(0, 0), (2, 2), (3, 2), (2, 3), (0, 1), (1, 0)]
+    for l in lens:
+        J.append(dict(kind='init_cache', lens=l))
+        for jit in (False, True): J.append(dict(kind='set_cache', lens=l, jit=jit))
+    for jit in (False, True): J.append(dict(kind='create_vm', lens=(2, 2), jit=jit))
+    return J
+
+LEMMAS['H3'] = dict(jobs=jobs_H3, run=run_H3, units=['lib'], asm=True,
+    functions=['randomx_vm_set_cache', 'randomx_init_cache', 'randomx_create_vm', 'InterpretedLightVm::setCache', 'CompiledLightVm::setCache', 'std::string compare/assign (modelled)'],
+    doc='binding bookkeeping, one inductive step per API call from an arbitrary prior binding (same cache, or a released cache whose addresses may have been handed out again): afterwards the VM uses exactly the given cache object, its memory, its current key, and (JIT) code generated from its programs; init_cache skips work only for a byte-identical key on an initialised cache',
+    bound='keys of length <= 3 (all length pairs in thorough, 6 pairs quick), symbolic key bytes; interpreted and compiled light VMs; one call', symbolic='key bytes, prior binding (object identity, address reuse), initialised flag',
+    stubs=['std::string := SSO model', 'Argon2/Blake2 generator/JIT code generation := recorders', 'cache->initialize := recorder'], outside='sequences violating the documented contract (hash on a VM bound to a released cache without re-binding)')
